@@ -129,7 +129,8 @@ fn deliver(s: &mut Scn, peer: usize, tid: u32, act: Act) {
     let responder_id = Id::from(s.peers[peer].id);
     let mt = match act {
         Act::Ack => MessageType::Response(ResponseSpecific::Ping(PingResponseArguments { responder_id })),
-        Act::Err(c) => MessageType::Error(ErrorSpecific { code: c, description: "scripted".into() }),
+        // every storing node words its errors in its own way (the description is free text)
+        Act::Err(c) => MessageType::Error(ErrorSpecific { code: c, description: ["scripted", "no", "rejected by node", ""][peer % 4].to_string() + &"!".repeat(peer / 4 % 3) }),
     };
     s.peers[peer].send(s.node.addr, tid, mt, false, None);
 }
